@@ -142,8 +142,15 @@ func setupOrigin(sc Scenario, trickle time.Duration) *env {
 	id := seq
 	seqMu.Unlock()
 	// the work_dir path contains glob / regexp meta characters: the startup sweep must not interpret the path
-	wd := filepath.Join(world.NewDir("c12"), []string{"crl[prod]", "work", "w*d?", "crl_x_tmp"}[id%4])
-	os.MkdirAll(wd, 0o755)
+	base := world.NewDir("c12")
+	wd := filepath.Join(base, []string{"crl[prod]", "work", "w*d?", "crl_x_tmp", "link"}[id%5])
+	if id%5 == 4 {
+		// work_dir is a symbolic link to the directory that holds the data
+		os.MkdirAll(filepath.Join(base, "real"), 0o755)
+		os.Symlink(filepath.Join(base, "real"), wd)
+	} else {
+		os.MkdirAll(wd, 0o755)
+	}
 	e := &env{origin: world.NewOrigin(), name: fmt.Sprintf("c12-%d-%d", os.Getpid(), id), wd: wd, omit: id%3 == 1}
 	e.pki, e.sib = pkiFor(e.name)
 	com := commonSerials(sc.N)
@@ -405,7 +412,7 @@ func runCase(c Case, x *ev.Ctx) error {
 var spec = ev.Spec[Case]{
 	ID:          "C12",
 	Run:         runCase,
-	Rule:        "crash-point enumeration: scenarios {first load, refresh} x {accepted, rejected signature} x list sizes x DER/PEM on disk storage with signature mode verify. A recording run lists every hook site (each step of LevelDbStore.Update, repository stage/commit/swap points) and every store write (start / insert #i / ext-meta / signer / locations) the scenario passes; then for every index of that sequence (quick: per-entry insert points of larger lists thinned out) a child process re-runs the scenario and SIGKILLs itself at that site, so the work_dir left behind is the real crash image. The parent restarts a fresh checker on the image with the origin broken and strict mode on and judges: if the location is treated as loaded (unlisted probe accepted) then old-only/new-only/common/last-common probes must show exactly one complete accepted list (never the rejected one); 'not loaded' and a clean error are always acceptable; after restart the work_dir (whose path contains glob / regexp meta characters in three of four cases) holds no crl_*_tmp and nothing a crash-free run does not leave either; a location that counts as loaded can be refreshed from a healthy origin. A second phase adds parent-timed SIGKILLs at drawn delays while the origin trickles the body. Non-trivial: the child was really killed; distinct by (scenario, site index / delay bucket).",
+	Rule:        "crash-point enumeration: scenarios {first load, refresh} x {accepted, rejected signature} x list sizes x DER/PEM on disk storage with signature mode verify. A recording run lists every hook site (each step of LevelDbStore.Update, repository stage/commit/swap points) and every store write (start / insert #i / ext-meta / signer / locations) the scenario passes; then for every index of that sequence (quick: per-entry insert points of larger lists thinned out) a child process re-runs the scenario and SIGKILLs itself at that site, so the work_dir left behind is the real crash image. The parent restarts a fresh checker on the image with the origin broken and strict mode on and judges: if the location is treated as loaded (unlisted probe accepted) then old-only/new-only/common/last-common probes must show exactly one complete accepted list (never the rejected one); 'not loaded' and a clean error are always acceptable; after restart the work_dir (whose path contains glob / regexp meta characters in three of five cases and is a symbolic link in one of five) holds no crl_*_tmp and nothing a crash-free run does not leave either; a location that counts as loaded can be refreshed from a healthy origin. A second phase adds parent-timed SIGKILLs at drawn delays while the origin trickles the body. Non-trivial: the child was really killed; distinct by (scenario, site index / delay bucket).",
 	Assumptions: []string{"process death, not power loss: the page cache survives (no fsync ordering is checked)"},
 }
 
